@@ -182,6 +182,16 @@ impl MemoryManager {
     }
 }
 
+impl Drop for MemoryManager {
+    fn drop(&mut self) {
+        // Whatever was retired but had not been handed to an epoch yet
+        let pending = mem::replace(&mut *self.wait_to_free.get_mut().unwrap(), Vec::new());
+        for val in pending {
+            val.delete();
+        }
+    }
+}
+
 impl Drop for MemoryManagerInner {
     fn drop(&mut self) {
         for val in self.tofree.drain(..) {
